@@ -138,7 +138,13 @@ async def invoke(
                 await asyncio.shield(future)  # slightly expensive: creates tasks
             except asyncio.CancelledError as e:
                 cancellation = e
+            except Exception:
+                # The thread has exited with an error. If a cancellation was postponed meanwhile,
+                # it takes precedence (see below); otherwise, the error goes to the caller as is.
+                if cancellation is None:
+                    raise
         if cancellation is not None:
+            future.exception()  # mark as retrieved: it is superseded by the cancellation.
             raise cancellation
         result = future.result()
 
